@@ -5,3 +5,5 @@ import LettreVerif.Props.C04
 #print axioms LV.C04.extension_required
 #print axioms LV.C04.mail_line_exact
 #print axioms LV.C04.xtext_valid
+#print axioms LV.C04.ehlo_domain_crlf_witness
+#print axioms LV.C04.param_keyword_crlf_witness
